@@ -8,7 +8,7 @@
    Histories: any list of get_flow(new | n) / cli_to_flow_nums / process_queued_ops /
    clean restart with load_from_db(any selection). *)
 From Coq Require Import List Bool ZArith Lia.
-From Cylc Require Import Base.Util Model.Flow Proofs.FlowProofs.
+From Cylc Require Import Base.Util Model.Flow Model.FlowCmd Proofs.FlowProofs Proofs.FlowCmdProofs.
 Import ListNotations.
 Open Scope Z_scope.
 
@@ -84,6 +84,77 @@ Theorem c08_children_carry_flows : forall child_before parent x,
   In x parent -> In x (flow_union child_before parent).
 Proof. intros c p x H. apply flow_union_In. now right. Qed.
 
+(* ---- outputs set by command: `cylc set --flow=F --out=O t` (Model/FlowCmd.v) ---- *)
+(* Property text: "Children spawned by a task carry that task's flow numbers
+   (merged into any existing instance, which then belongs to the union)", for the
+   outputs completed by a `set` command on a pooled (or inactive) task.
+   [resolve] gives F, the command's flow numbers; [target_flows] the flows of t
+   when its outputs are set; [child_effect] what spawn_on_output then does to each
+   graph child of those outputs.  The correspondence stream "flowcmd" checks on
+   the real Scheduler that t ends with [target_flows] and that EVERY child effect of
+   the command was made with exactly these flows. *)
+
+(* F: --flow=none -> nothing; --flow=N.. -> those numbers; default -> all active
+   flows (the union of the pooled tasks' flows, else the fallback) *)
+Theorem c08_set_flows_of_command : forall st pool fb st' f,
+  (resolve st CNone pool fb = (st', Some f) -> f = []) /\
+  (forall l x, l <> [] -> resolve st (CNums l) pool fb = (st', Some f) -> (In x f <-> In x l)) /\
+  (resolve st (CNums []) pool fb = (st', Some f) -> f = active_flows pool fb).
+Proof.
+  intros st pool fb st' f. split; [|split].
+  - intros H. now destruct (resolve_none _ _ _ _ _ H).
+  - intros l x Hl H. exact (resolve_nums _ _ _ _ _ _ x Hl H).
+  - intros H. now destruct (resolve_default _ _ _ _ _ H).
+Qed.
+
+(* --flow=new: F is one number that is recorded nowhere and in no pooled task's
+   flows (given that pooled tasks only carry numbers handed out by the FlowMgr) *)
+Theorem c08_set_new_flow_fresh : forall st pool fb st' f,
+  resolve st CNew pool fb = (st', Some f) -> Inv st ->
+  (forall fl x, In fl pool -> In x fl -> In x (used st)) ->
+  exists n, f = [n] /\ ~ In n (used st) /\ (forall fl, In fl pool -> ~ In n fl) /\ Inv st' /\ In n (used st').
+Proof. exact resolve_new_fresh. Qed.
+
+(* after the command a pooled target belongs to old ∪ F (an inactive one to F);
+   the only case in which nothing happens: --flow=none on a pooled task with flows *)
+Theorem c08_set_target_flows : forall old c f t' x,
+  (target_flows true old c f = Some t' -> (In x t' <-> In x old \/ In x f)) /\
+  (target_flows false old c f = Some t' -> (In x t' <-> In x f)) /\
+  (target_flows true old c f = None <-> c = CNone /\ old <> []).
+Proof.
+  intros old c f t' x. split; [|split].
+  - apply target_flows_pooled.
+  - apply target_flows_inactive.
+  - apply target_flows_skipped.
+Qed.
+
+(* every child of the completed outputs is handed exactly the target's NEW flows
+   t' and afterwards carries a superset of them: a fresh child t', a child already
+   in the pool the union of its own flows and t' *)
+Theorem c08_set_children_carry_flows : forall t' before arg after,
+  child_effect t' before = (arg, after) ->
+  arg = t' /\
+  (forall x, In x t' -> In x after) /\
+  (forall x, In x after <-> In x t' \/ exists b, before = Some b /\ In x b).
+Proof. exact child_effect_spec. Qed.
+
+(* put together for --flow=new on a pooled task: the children carry old ∪ {n}, n fresh *)
+Theorem c08_set_new_on_pooled_task : forall st pool fb st' f old t' before arg after,
+  resolve st CNew pool fb = (st', Some f) -> Inv st ->
+  (forall fl x, In fl pool -> In x fl -> In x (used st)) ->
+  target_flows true old CNew f = Some t' ->
+  child_effect t' before = (arg, after) ->
+  exists n, ~ In n (used st) /\ (forall fl, In fl pool -> ~ In n fl) /\
+            In n after /\ (forall x, In x old -> In x after).
+Proof.
+  intros st pool fb st' f old t' before arg after Hr Hi Hp Ht Hc.
+  destruct (resolve_new_fresh _ _ _ _ _ Hr Hi Hp) as (n & -> & H1 & H2 & _).
+  destruct (child_effect_spec _ _ _ _ Hc) as (_ & Hsup & _).
+  exists n. split; [exact H1|]. split; [exact H2|]. split.
+  - apply Hsup. apply (target_flows_pooled _ _ _ _ n Ht). right. now left.
+  - intros x Hx. apply Hsup. apply (target_flows_pooled _ _ _ _ x Ht). now left.
+Qed.
+
 (* ---- non-vacuity ---- *)
 (* 1, 2, manual 7, restart selecting only flow 1 (7 not loaded into .flows),
    new -> 8 (not 3..7), manual 3, restart, new -> 9 *)
@@ -94,4 +165,22 @@ Example c08_ex_history :
 Proof. vm_compute. reflexivity. Qed.
 
 Example c08_ex_skip : snd (frun f_init [OGet (Some 1); OGet (Some 2); OGet None]) = [ObNums [1]; ObNums [2]; ObNums [3]].
+Proof. vm_compute. reflexivity. Qed.
+
+(* the seeded scenario: a & b => c, b => d; flows: b {1}, c {1} pooled; set --flow=new --out=succeeded 1/b:
+   b ends {1,2}; d spawned with {1,2}; c merged to {1,2} *)
+Example c08_ex_set_new :
+  check_cmd {| k_counter := Some 1; k_flowkeys := [1]; k_cli := CNew; k_pool := [[1]; [1]]; k_fallback := [];
+               k_pooled := true; k_old := [1]; k_loaded := false; k_counter_after := Some 2; k_ran := true;
+               k_target_after := [1; 2];
+               k_effects := [ {| eo_before := None; eo_arg := [1; 2]; eo_after := Some [1; 2] |};
+                              {| eo_before := Some [1]; eo_arg := [1; 2]; eo_after := Some [1; 2] |} ] |} = true.
+Proof. vm_compute. reflexivity. Qed.
+
+(* ... and the swapped order (children spawned with the OLD flows) is rejected *)
+Example c08_ex_set_new_swapped_rejected :
+  check_cmd {| k_counter := Some 1; k_flowkeys := [1]; k_cli := CNew; k_pool := [[1]; [1]]; k_fallback := [];
+               k_pooled := true; k_old := [1]; k_loaded := false; k_counter_after := Some 2; k_ran := true;
+               k_target_after := [1; 2];
+               k_effects := [ {| eo_before := None; eo_arg := [1]; eo_after := Some [1] |} ] |} = false.
 Proof. vm_compute. reflexivity. Qed.
